@@ -101,8 +101,11 @@ Theorem handshake_spec s tr expected s1 cls tr1 :
      exists e, find_end (flat tr) 0 = Some e /\ hs_verdict (ztake e (flat tr)) expected = 0 /\
                h_src s1 ++ flat tr1 = zdrop e (flat tr)).
 Proof.
-  unfold handshake. destruct (read_head hs_fuel [] hs_buffer_size tr) as [buf e tr2|c tr2|] eqn:Er.
-  - destruct (read_head_conserves _ _ _ _ _ _ _ Er ltac:(unfold zlen, hs_buffer_size; cbn; lia)) as (A & B & C).
+  unfold handshake. cbv zeta. set (cap0 := Z.max hs_buffer_size (h_cap s)).
+  assert (Hcap0 : zlen (@nil Z) <= cap0) by (unfold cap0, zlen, hs_buffer_size; cbn; lia).
+  generalize (read_cap hs_fuel [] cap0 tr). intros cap1.
+  destruct (read_head hs_fuel [] cap0 tr) as [buf e tr2|c tr2|] eqn:Er.
+  - destruct (read_head_conserves _ _ _ _ _ _ _ Er Hcap0) as (A & B & C).
     cbn [app] in A, C. pose proof (find_end_range _ _ _ B) as R.
     assert (Hhead : ztake e (flat tr) = ztake e buf) by (rewrite <- A; apply ztake_app_l; lia).
     assert (Hrest : zdrop e (flat tr) = zdrop e buf ++ flat tr2) by (rewrite <- A; apply zdrop_app_l; lia).
